@@ -43,8 +43,87 @@ def jobs_rpypi(tier):
     return [dict(base, harness="VerifC04Marker", params={"n": n}) for n in range(0, nm + 1)]
 
 
+BASE = dict(panic_is_violation=True, unwind_is_violation=True, unwind=60, max_witnesses=3, witness_every=200)
+
+
+def jobs_schema(tier):
+    q = tier == "quick"
+    base = dict(BASE, timeout_s=600 if q else 3000, unwind=80)
+    jobs = []
+    for n in range(0, (3 if q else 4) + 1):
+        jobs.append(dict(base, harness="VerifC04ParseResolve", params={"n": n, "alpha": 0}))
+        for sys in (1, 3):  # NPM, Maven
+            jobs.append(dict(base, harness="VerifC04SchemaNew", params={"n": n, "alpha": 0, "sys": sys}))
+    for n in range(4, (5 if q else 7) + 1):
+        jobs.append(dict(base, harness="VerifC04ParseResolve", params={"n": n, "alpha": 1}))
+        jobs.append(dict(base, harness="VerifC04SchemaNew", params={"n": n, "alpha": 1, "sys": 1}))
+    # row templates: depth of each row x kind of each row
+    import itertools
+    rows = 2 if q else 3
+    for nr in range(1, rows + 1):
+        for depths in itertools.product(range(0, 4), repeat=nr):
+            if any(d > i + 2 for i, d in enumerate(depths)):
+                continue
+            for kinds in itertools.product(range(6), repeat=nr):
+                if q and nr == 2 and (kinds[0] + 2 * kinds[1] + depths[0] + depths[1]) % 6 != 0:
+                    continue  # quick: a sixth of the two-row templates
+                if not q and nr == 3 and (kinds[0] + 2 * kinds[1] + 3 * kinds[2] + sum(depths)) % 11 != 0:
+                    continue
+                p = {"rows": nr, "alpha": 1}
+                for r in range(nr):
+                    p["r%dd" % r] = depths[r]
+                    p["r%dk" % r] = kinds[r]
+                    p["r%dtn" % r] = 1 + (r + kinds[r]) % 2
+                    p["r%dxn" % r] = (depths[r] + kinds[r]) % 3
+                jobs.append(dict(base, harness="VerifC04ParseResolveRows", params=p))
+    return jobs
+
+
+def jobs_texts(tier):
+    q = tier == "quick"
+    base = dict(BASE, timeout_s=600 if q else 3000)
+    dj, vj = [], []
+    for n in range(0, (3 if q else 5) + 1):
+        dj.append(dict(base, harness="VerifC04DepParse", params={"n": n}))
+        vj.append(dict(base, harness="VerifC04AttrParse", params={"n": n}))
+    for key in range(6):
+        for n in range(0, (3 if q else 5) + 1):
+            dj.append(dict(base, harness="VerifC04DepParseKeyed", params={"key": key, "n": n}))
+            vj.append(dict(base, harness="VerifC04AttrParseKeyed", params={"key": key, "n": n}))
+    return dj, vj
+
+
+def jobs_resolve(tier):
+    q = tier == "quick"
+    base = dict(BASE, timeout_s=600 if q else 3000)
+    jobs = []
+    for excl in range(-1, (4 if q else 6) + 1):
+        for flags in range(4):
+            jobs.append(dict(base, harness="VerifC04MavenDepType",
+                             params={"excl": excl, "opt": flags & 1, "test": flags >> 1, "scope": (excl + flags) % 2, "origin": (excl + flags) % 3 % 2}))
+    return jobs
+
+
+def jobs_maven(tier):
+    q = tier == "quick"
+    base = dict(BASE, timeout_s=600 if q else 3000, unwind=120,
+                summarise=["deps.dev/util/semver.compare"])
+    jobs = []
+    for n in range(0, (2 if q else 4) + 1):
+        for m in range(0, (2 if q else 3) + 1):
+            jobs.append(dict(base, harness="VerifC04ProfileActivation", params={"n": n, "m": m, "os": (n + m) % 2, "prop": (n + m + 1) % 2}))
+    for n in range(0, (3 if q else 5) + 1):
+        jobs.append(dict(base, harness="VerifC04ProjectKey", params={"n": n}))
+    for n in range(0, (2 if q else 3) + 1):
+        jobs.append(dict(base, harness="VerifC04ProjectPipeline", params={"n": n}))
+    return jobs
+
+
 def run(tier):
-    groups = [Group("semver", jobs_semver(tier)), Group("pypi", jobs_pypi(tier)), Group("rpypi", jobs_rpypi(tier))]
+    dj, vj = jobs_texts(tier)
+    groups = [Group("semver", jobs_semver(tier)), Group("pypi", jobs_pypi(tier)), Group("rpypi", jobs_rpypi(tier)),
+              Group("schema", jobs_schema(tier)), Group("deptest", dj), Group("versiontest", vj),
+              Group("resolve", jobs_resolve(tier)), Group("maven", jobs_maven(tier))]
     return run_property("C04", tier, groups, required_covers=["accepted", "rejected", "canon computed"],
                         assumptions=["inputs are byte strings of the stated lengths, all 256 byte values"],
                         bounds={"semver": "see jobs table: n = string length"})
